@@ -114,18 +114,11 @@ Section Format.
     apply eq_IZR. rewrite Binary.Btrunc_correct by exact prec_lt_emax_. rewrite round_FIX_IZR. rewrite HR. reflexivity.
   Qed.
 
-  Lemma fgt0_correct x : Binary.is_finite prec emax x = true ->
-    fgt0 prec emax x = true <-> (0 < B2R x)%R.
+  Lemma flt_correct a b : Binary.is_finite prec emax a = true -> Binary.is_finite prec emax b = true ->
+    flt prec emax a b = true <-> (B2R a < B2R b)%R.
   Proof.
-    intros Hf. unfold fgt0. rewrite Binary.Bcompare_correct by (try exact Hf; reflexivity).
-    cbn [Binary.B2R]. destruct (Rcompare_spec (B2R x) 0); split; intros; try discriminate; try lra; reflexivity.
-  Qed.
-
-  Lemma flt0_correct x : Binary.is_finite prec emax x = true ->
-    flt0 prec emax x = true <-> (B2R x < 0)%R.
-  Proof.
-    intros Hf. unfold flt0. rewrite Binary.Bcompare_correct by (try exact Hf; reflexivity).
-    cbn [Binary.B2R]. destruct (Rcompare_spec (B2R x) 0); split; intros; try discriminate; try lra; reflexivity.
+    intros Ha Hb. unfold flt. rewrite Binary.Bcompare_correct by assumption.
+    destruct (Rcompare_spec (B2R a) (B2R b)); split; intros; try discriminate; try lra; reflexivity.
   Qed.
 
   Lemma of_int_zero_iff z : Z.abs z <= 2 ^ 64 -> Z.abs z < 2 ^ prec ->
@@ -139,98 +132,143 @@ Section Format.
       exfalso. cbn in HR. apply Hnz. apply eq_IZR. symmetry. exact HR.
   Qed.
 
-  (* ---------- T_C04_int_to_fp: whatever is accepted is exact ---------- *)
+  (* the limit std::ldexp(F(1), digits) *)
+  Lemma limit_correct k : 0 <= k <= 64 ->
+    B2R (of_int (2 ^ k)) = IZR (2 ^ k) /\ Binary.is_finite prec emax (of_int (2 ^ k)) = true.
+  Proof.
+    intros Hk.
+    assert (Hp : 0 < 2 ^ k <= 2 ^ 64) by (split; [apply Z.pow_pos_nonneg; lia | apply Z.pow_le_mono_r; lia]).
+    destruct (of_int_correct (2 ^ k) ltac:(lia)) as [HR HF]. split; [|exact HF].
+    rewrite HR. apply round_generic; auto with typeclass_instances.
+    change (2 ^ k) with (Zpower radix2 k). rewrite (IZR_Zpower radix2 k) by lia.
+    apply generic_format_bpow. unfold SpecFloat.fexp. pose proof prec_pos. pose proof emin_neg. lia.
+  Qed.
 
+  Lemma neg_pow_fmt j : 0 <= j <= 64 -> fmt (IZR (- 2 ^ j)).
+  Proof.
+    intros Hj. rewrite opp_IZR. apply generic_format_opp.
+    change (2 ^ j) with (Zpower radix2 j). rewrite (IZR_Zpower radix2 j) by lia.
+    apply generic_format_bpow. unfold SpecFloat.fexp. pose proof prec_pos. pose proof emin_neg. lia.
+  Qed.
+
+  (* shape of the non-bool types: [lo, hi] = [0 or -2^digits, 2^digits - 1] *)
+  Lemma type_shape S : is_bool S = false ->
+    0 <= digits_of S <= 64 /\ hi S + 1 = 2 ^ digits_of S /\ (lo S = 0 \/ lo S = - 2 ^ digits_of S).
+  Proof. destruct S; try discriminate; intros _; cbn; repeat split; try lia; (left; reflexivity) || (right; reflexivity). Qed.
+
+  (* below the limit the cast back is defined: the truncated value is inside the source type *)
+  Lemma cast_back_defined S z : is_bool S = false -> in_range S z ->
+    flt prec emax (of_int z) (of_int (2 ^ digits_of S)) = true ->
+    to_int_cast prec emax S (of_int z) = Some (Ztrunc (rnd (IZR z))) /\ in_range S (Ztrunc (rnd (IZR z))).
+  Proof.
+    intros Hb Hr Hlt. pose proof (range_abs64 S z Hr) as Hz.
+    destruct (of_int_correct z Hz) as [HR HF].
+    destruct (type_shape S Hb) as [Hk [Hhi Hlo]].
+    destruct (limit_correct (digits_of S) Hk) as [LR LF].
+    apply (flt_correct _ _ HF LF) in Hlt. rewrite HR, LR in Hlt.
+    assert (Hin : in_range S (Ztrunc (rnd (IZR z)))).
+    { unfold in_range. split.
+      - assert (Hdn : (IZR (lo S) <= rnd (IZR z))%R).
+        { apply round_ge_generic; auto with typeclass_instances; [|apply IZR_le; apply Hr].
+          destruct Hlo as [->| ->]; [apply generic_format_0 | apply neg_pow_fmt; exact Hk]. }
+        apply Ztrunc_le in Hdn. rewrite Ztrunc_IZR in Hdn. exact Hdn.
+      - destruct (Rle_or_lt 0 (rnd (IZR z))) as [Hpos|Hneg].
+        + assert (IZR (Ztrunc (rnd (IZR z))) < IZR (2 ^ digits_of S))%R.
+          { eapply Rle_lt_trans; [|exact Hlt]. rewrite Ztrunc_floor by exact Hpos. apply Zfloor_lb. }
+          apply lt_IZR in H. lia.
+        + assert (Ztrunc (rnd (IZR z)) <= 0).
+          { replace 0 with (Ztrunc 0) by apply (Ztrunc_IZR 0). apply Ztrunc_le. lra. }
+          assert (0 < 2 ^ digits_of S) by (apply Z.pow_pos_nonneg; lia). lia. }
+    split; [|exact Hin].
+    unfold to_int_cast. rewrite HF, (Btrunc_rnd z Hz).
+    apply in_rangeb_spec in Hin. rewrite Hin. destruct S; try discriminate; reflexivity.
+  Qed.
+
+  (* ---------- T_C04_int_to_fp ---------- *)
+
+  (* whatever is accepted is exact *)
   Theorem int_to_fp_exact S z v : in_range S z -> conv_int_fp S z = COk v ->
     B2R v = IZR z /\ Binary.is_finite prec emax v = true.
   Proof.
     intros Hr H. pose proof (range_abs64 S z Hr) as Hz.
     destruct (of_int_correct z Hz) as [HR HF].
     unfold NumFloatModel.conv_int_fp in H.
-    destruct (to_int_cast prec emax S (of_int z)) as [back|] eqn:Ec; [|discriminate].
     destruct (is_bool S) eqn:Eb.
     - (* bool: 0 and 1 are representable whatever the test says *)
+      destruct (to_int_cast prec emax S (of_int z)) as [back|]; [|discriminate].
       destruct (eq_c S back S z); [|discriminate].
       assert (v = of_int z) by congruence. subst v. split; [|exact HF].
       rewrite HR. apply round_generic; auto with typeclass_instances. apply small_int_fmt.
       destruct S; try discriminate. unfold in_range, lo, hi in Hr. cbn in Hr.
       assert (2 ^ 1 <= 2 ^ prec) by (apply Z.pow_le_mono_r; pose proof prec_pos; lia). lia.
-    - destruct (eq_c S back S z && negb (fgt0 prec emax (of_int z) && lt0 S z || flt0 prec emax (of_int z) && gt0 S z)) eqn:Et; [|discriminate].
+    - destruct (flt prec emax (of_int z) (of_int (2 ^ digits_of S))) eqn:El; [|discriminate].
+      destruct (cast_back_defined S z Eb Hr El) as [Ec Hin]. rewrite Ec in H.
+      destruct (eq_c S (Ztrunc (rnd (IZR z))) S z) eqn:Eeq; [|discriminate].
       assert (v = of_int z) by congruence. subst v. split; [|exact HF].
-      apply andb_true_iff in Et. destruct Et as [Eeq _].
-      assert (Hback : in_range S back /\ back = Binary.Btrunc prec emax (of_int z)).
-      { unfold to_int_cast in Ec. destruct S; try discriminate; rewrite HF in Ec;
-          match type of Ec with (if ?c then _ else _) = _ => destruct c eqn:Erange; [|discriminate] end;
-          (split; [apply in_rangeb_spec; congruence | congruence]). }
-      destruct Hback as [Hbr Hbt].
-      rewrite (eq_c_same S back z Hbr Hr) in Eeq. apply Z.eqb_eq in Eeq.
-      rewrite HR. apply trunc_back_exact. rewrite <- Btrunc_rnd by exact Hz. congruence.
+      rewrite (eq_c_same S _ z Hin Hr) in Eeq. apply Z.eqb_eq in Eeq.
+      rewrite HR. apply trunc_back_exact. exact Eeq.
   Qed.
 
-  (* ... and every exactly representable integer is accepted: no UB, no refusal *)
+  (* every exactly representable integer is accepted *)
   Theorem int_to_fp_complete S z : in_range S z -> fmt (IZR z) -> conv_int_fp S z = COk (of_int z).
   Proof.
     intros Hr Hf. pose proof (range_abs64 S z Hr) as Hz.
     destruct (of_int_correct z Hz) as [HR HF].
     rewrite round_generic in HR by (auto with typeclass_instances).
-    assert (Ht : Binary.Btrunc prec emax (of_int z) = z).
-    { rewrite Btrunc_rnd by exact Hz. rewrite round_generic by (auto with typeclass_instances). apply Ztrunc_IZR. }
     unfold NumFloatModel.conv_int_fp.
     destruct (is_bool S) eqn:Eb.
     - destruct S; try discriminate. unfold to_int_cast.
       unfold in_range, lo, hi in Hr. cbn in Hr.
       assert (Hs : Z.abs z < 2 ^ prec).
       { assert (2 ^ 1 <= 2 ^ prec) by (apply Z.pow_le_mono_r; pose proof prec_pos; lia). lia. }
-      rewrite (of_int_zero_iff z Hz Hs). cbn [is_bool].
+      rewrite (of_int_zero_iff z Hz Hs).
       rewrite eq_c_same; [| |unfold in_range, lo, hi; cbn; lia].
       + destruct (Z.eqb_spec z 0); [subst; reflexivity|]. assert (z = 1) by lia. subst. reflexivity.
       + unfold in_range, lo, hi. cbn. destruct (z =? 0); lia.
-    - assert (Ec : to_int_cast prec emax S (of_int z) = Some z).
-      { apply in_rangeb_spec in Hr. unfold to_int_cast. destruct S; try discriminate; rewrite HF, Ht, Hr; reflexivity. }
-      rewrite Ec. rewrite (eq_c_same S z z Hr Hr), Z.eqb_refl. cbn [andb].
-      rewrite (gt0_exact S z Hr), (lt0_exact S z Hr).
-      destruct (fgt0 prec emax (of_int z)) eqn:Eg.
-      + apply (fgt0_correct _ HF) in Eg. rewrite HR in Eg. apply lt_IZR in Eg.
-        destruct (flt0 prec emax (of_int z)) eqn:El.
-        * apply (flt0_correct _ HF) in El. rewrite HR in El. apply lt_IZR in El. lia.
-        * replace (z <? 0) with false by lia. reflexivity.
-      + destruct (flt0 prec emax (of_int z)) eqn:El.
-        * apply (flt0_correct _ HF) in El. rewrite HR in El. apply lt_IZR in El.
-          replace (0 <? z) with false by lia. reflexivity.
-        * reflexivity.
+    - destruct (type_shape S Eb) as [Hk [Hhi _]].
+      destruct (limit_correct (digits_of S) Hk) as [LR LF].
+      assert (El : flt prec emax (of_int z) (of_int (2 ^ digits_of S)) = true).
+      { apply (flt_correct _ _ HF LF). rewrite HR, LR. apply IZR_lt. unfold in_range in Hr. lia. }
+      rewrite El. destruct (cast_back_defined S z Eb Hr El) as [Ec _]. rewrite Ec.
+      rewrite round_generic by (auto with typeclass_instances). rewrite Ztrunc_IZR.
+      rewrite (eq_c_same S z z Hr Hr), Z.eqb_refl. reflexivity.
   Qed.
 
-  (* the class on which the cast back is undefined: the rounded value does not fit the source type *)
-  Definition ub_class (S : ity) (z : Z) : bool :=
-    negb (is_bool S) && negb (in_rangeb S (Binary.Btrunc prec emax (of_int z))).
-
-  Theorem int_to_fp_ub_iff S z : in_range S z -> (conv_int_fp S z = CUB <-> ub_class S z = true).
+  (* FULL STRENGTH, second half: an integer that is not exactly representable is out_of_range *)
+  Theorem int_to_fp_reject S z : in_range S z -> ~ fmt (IZR z) -> conv_int_fp S z = COutOfRange.
   Proof.
-    intros Hr. pose proof (range_abs64 S z Hr) as Hz. destruct (of_int_correct z Hz) as [_ HF].
-    unfold NumFloatModel.conv_int_fp, ub_class, to_int_cast.
-    destruct S; cbn [is_bool negb andb]; rewrite ?HF;
-      try (destruct (in_rangeb _ (Binary.Btrunc prec emax (of_int z))); cbn [negb];
-           split; intros H; try discriminate; try reflexivity;
-           repeat match type of H with context [if ?c then _ else _] => destruct c end; discriminate).
-    split; intros H; [|discriminate].
-    repeat match type of H with context [if ?c then _ else _] => destruct c end; discriminate.
+    intros Hr Hnf.
+    destruct (is_bool S) eqn:Eb.
+    { exfalso. apply Hnf. apply small_int_fmt. destruct S; try discriminate.
+      unfold in_range, lo, hi in Hr. cbn in Hr.
+      assert (2 ^ 1 <= 2 ^ prec) by (apply Z.pow_le_mono_r; pose proof prec_pos; lia). lia. }
+    destruct (conv_int_fp S z) as [v| | | |] eqn:E; try reflexivity; exfalso.
+    - destruct (int_to_fp_exact S z v Hr E) as [HR _]. apply Hnf. rewrite <- HR. apply Binary.generic_format_B2R.
+    - unfold NumFloatModel.conv_int_fp in E. rewrite Eb in E.
+      destruct (flt prec emax (of_int z) (of_int (2 ^ digits_of S))) eqn:El; [|discriminate].
+      destruct (cast_back_defined S z Eb Hr El) as [Ec _]. rewrite Ec in E.
+      destruct (eq_c S (Ztrunc (rnd (IZR z))) S z); discriminate.
+    - unfold NumFloatModel.conv_int_fp in E. rewrite Eb in E.
+      destruct (flt prec emax (of_int z) (of_int (2 ^ digits_of S))) eqn:El; [|discriminate].
+      destruct (cast_back_defined S z Eb Hr El) as [Ec _]. rewrite Ec in E.
+      destruct (eq_c S (Ztrunc (rnd (IZR z))) S z); discriminate.
+    - unfold NumFloatModel.conv_int_fp in E. rewrite Eb in E.
+      destruct (flt prec emax (of_int z) (of_int (2 ^ digits_of S))) eqn:El; [|discriminate].
+      destruct (cast_back_defined S z Eb Hr El) as [Ec _]. rewrite Ec in E.
+      destruct (eq_c S (Ztrunc (rnd (IZR z))) S z); discriminate.
   Qed.
 
-  (* outside that class a non-representable integer is refused with out_of_range *)
-  Theorem int_to_fp_reject_outside S z : in_range S z -> ub_class S z = false -> ~ fmt (IZR z) ->
-    conv_int_fp S z = COutOfRange.
+  (* no undefined behaviour is left: the outcome is always a value or out_of_range *)
+  Theorem int_to_fp_total S z : in_range S z ->
+    conv_int_fp S z = COk (of_int z) \/ conv_int_fp S z = COutOfRange.
   Proof.
-    intros Hr Hub Hnf.
-    destruct (conv_int_fp S z) as [v| | | |] eqn:E; try reflexivity.
-    - exfalso. destruct (int_to_fp_exact S z v Hr E) as [HR _]. apply Hnf. rewrite <- HR.
-      apply Binary.generic_format_B2R.
-    - exfalso. unfold NumFloatModel.conv_int_fp in E.
-      destruct (to_int_cast prec emax S (of_int z)); [|discriminate].
-      destruct (is_bool S); repeat match type of E with context [if ?c then _ else _] => destruct c end; discriminate.
-    - exfalso. unfold NumFloatModel.conv_int_fp in E.
-      destruct (to_int_cast prec emax S (of_int z)); [|discriminate].
-      destruct (is_bool S); repeat match type of E with context [if ?c then _ else _] => destruct c end; discriminate.
-    - exfalso. apply (int_to_fp_ub_iff S z Hr) in E. congruence.
+    intros Hr. pose proof (range_abs64 S z Hr) as Hz.
+    unfold NumFloatModel.conv_int_fp.
+    destruct (is_bool S) eqn:Eb.
+    - destruct S; try discriminate. cbn [to_int_cast]. destruct (eq_c TBool _ TBool z); [left|right]; reflexivity.
+    - destruct (flt prec emax (of_int z) (of_int (2 ^ digits_of S))) eqn:El; [|right; reflexivity].
+      destruct (cast_back_defined S z Eb Hr El) as [Ec _]. rewrite Ec.
+      destruct (eq_c S (Ztrunc (rnd (IZR z))) S z); [left|right]; reflexivity.
   Qed.
 End Format.
 
@@ -253,42 +291,22 @@ Definition int_to_f32_exact := int_to_fp_exact 24 128 prec32_gt_0 prec32_lt_emax
 Definition int_to_f64_exact := int_to_fp_exact 53 1024 prec64_gt_0 prec64_lt_emax eq_refl.
 Definition int_to_f32_complete := int_to_fp_complete 24 128 prec32_gt_0 prec32_lt_emax eq_refl.
 Definition int_to_f64_complete := int_to_fp_complete 53 1024 prec64_gt_0 prec64_lt_emax eq_refl.
-Definition int_to_f32_ub_iff := int_to_fp_ub_iff 24 128 prec32_gt_0 prec32_lt_emax eq_refl.
-Definition int_to_f64_ub_iff := int_to_fp_ub_iff 53 1024 prec64_gt_0 prec64_lt_emax eq_refl.
-Definition int_to_f32_reject_outside := int_to_fp_reject_outside 24 128 prec32_gt_0 prec32_lt_emax eq_refl.
-Definition int_to_f64_reject_outside := int_to_fp_reject_outside 53 1024 prec64_gt_0 prec64_lt_emax eq_refl.
+Definition int_to_f32_reject := int_to_fp_reject 24 128 prec32_gt_0 prec32_lt_emax eq_refl.
+Definition int_to_f64_reject := int_to_fp_reject 53 1024 prec64_gt_0 prec64_lt_emax eq_refl.
+Definition int_to_f32_total := int_to_fp_total 24 128 prec32_gt_0 prec32_lt_emax eq_refl.
+Definition int_to_f64_total := int_to_fp_total 53 1024 prec64_gt_0 prec64_lt_emax eq_refl.
 
-Definition ub_class32 := ub_class 24 128 prec32_gt_0 prec32_lt_emax.
-Definition ub_class64 := ub_class 53 1024 prec64_gt_0 prec64_lt_emax.
+(* the former undefined-behaviour inputs (rounded value 2^31 / 2^32 / 2^63 / 2^64) are now refused *)
+Lemma top_values_refused :
+  conv_int_f32 TU64 (2 ^ 64 - 1) = COutOfRange /\ conv_int_f64 TU64 (2 ^ 64 - 1) = COutOfRange /\
+  conv_int_f32 TI64 (2 ^ 63 - 1) = COutOfRange /\ conv_int_f64 TI64 (2 ^ 63 - 1) = COutOfRange /\
+  conv_int_f32 TU32 (2 ^ 32 - 1) = COutOfRange /\ conv_int_f32 TI32 (2 ^ 31 - 1) = COutOfRange.
+Proof. repeat split; vm_compute; reflexivity. Qed.
 
-(* the undefined behaviour is reachable: the largest values of the 32/64-bit types *)
-Lemma ub_witness_f32 : in_range TU64 (2 ^ 64 - 1) /\ conv_int_f32 TU64 (2 ^ 64 - 1) = CUB /\ ub_class32 TU64 (2 ^ 64 - 1) = true.
-Proof. split; [unfold in_range; vm_compute; split; discriminate|]. split; vm_compute; reflexivity. Qed.
-
-Lemma ub_witness_f64 : in_range TI64 (2 ^ 63 - 1) /\ conv_int_f64 TI64 (2 ^ 63 - 1) = CUB /\ ub_class64 TI64 (2 ^ 63 - 1) = true.
-Proof. split; [unfold in_range; vm_compute; split; discriminate|]. split; vm_compute; reflexivity. Qed.
-
-Lemma ub_witness_i32_f32 : in_range TI32 (2 ^ 31 - 1) /\ conv_int_f32 TI32 (2 ^ 31 - 1) = CUB.
-Proof. split; [unfold in_range; vm_compute; split; discriminate|]. vm_compute; reflexivity. Qed.
-
-(* 8/16-bit sources (and 32-bit into double) never reach it *)
-Lemma no_ub_small_f32 S z : (bits_of S <= 16) -> in_range S z -> ub_class32 S z = false.
-Proof.
-  intros Hb Hr.
-  assert (Hs : Z.abs z < 2 ^ 24) by (unfold in_range, lo, hi in Hr; destruct S; cbn in *; lia).
-  assert (Hf : fmt32 (IZR z)) by (apply (small_int_fmt 24 128 prec32_gt_0 prec32_lt_emax); exact Hs).
-  destruct (ub_class32 S z) eqn:E; [|reflexivity].
-  apply (int_to_f32_ub_iff S z Hr) in E. rewrite (int_to_f32_complete S z Hr Hf) in E. discriminate.
-Qed.
-
-Lemma no_ub_le32_f64 S z : (bits_of S <= 32) -> in_range S z -> ub_class64 S z = false.
-Proof.
-  intros Hb Hr.
-  assert (Hs : Z.abs z < 2 ^ 53) by (unfold in_range, lo, hi in Hr; destruct S; cbn in *; lia).
-  assert (Hf : fmt64 (IZR z)) by (apply (small_int_fmt 53 1024 prec64_gt_0 prec64_lt_emax); exact Hs).
-  destruct (ub_class64 S z) eqn:E; [|reflexivity].
-  apply (int_to_f64_ub_iff S z Hr) in E. rewrite (int_to_f64_complete S z Hr Hf) in E. discriminate.
-Qed.
+Lemma top_values_accepted :
+  option_map bits_of_b32 (match conv_int_f32 TU64 (2 ^ 64 - 2 ^ 40) with COk v => Some v | _ => None end) = Some 0x5f7fffff /\
+  option_map bits_of_b64 (match conv_int_f64 TI64 (- 2 ^ 63) with COk v => Some v | _ => None end) = Some 0xc3e0000000000000.
+Proof. split; vm_compute; reflexivity. Qed.
 
 (* ---------- float -> double ---------- *)
 
@@ -403,3 +421,6 @@ Proof. split; vm_compute; reflexivity. Qed.
 
 Example f64_to_f32_tie : option_map bits_of_b32 (match conv_f64_f32 (b64_of_bits 0x3ff0000010000000) with COk y => Some y | _ => None end) = Some 0x3f800000.
 Proof. vm_compute. reflexivity. Qed.
+
+Lemma fp_to_int_invalid (x : binary64) T : conv_fp_int x T = CInvalidArgument.
+Proof. reflexivity. Qed.
